@@ -96,7 +96,10 @@ int main(int argc, char** argv)
         p.depth = vx::thorough() ? 4 : 2;
         s.max_new_blocks = p.depth;
         p.split = 1;
-        p.what = "oracle: a block the reference ledger rejects (value rules) is never in the active chain; tip is a most-work valid delivered chain; UTXO == reference; sum(UTXO) <= subsidy schedule; plus the complete cross product of boundary coin values x 1-3 inputs x 1-2 outputs x coinbase depth through Consensus::CheckTxInputs vs an __int128 reference";
+        // base chain ends two blocks before regtest's first halving (height 150), so that the explored blocks straddle
+        // the boundary: the subsidy must halve exactly AT height 150
+        p.base_blocks = 148;
+        p.what = "base chain of 148 blocks (explored blocks are at heights 148..152, across the first regtest halving at 150); oracle: a block the reference ledger rejects (value rules) is never in the active chain; tip is a most-work valid delivered chain; UTXO == reference; sum(UTXO) <= subsidy schedule; plus the complete cross product of boundary coin values x 1-3 inputs x 1-2 outputs x coinbase depth through Consensus::CheckTxInputs vs an __int128 reference";
         return p;
     });
     if (rc >= 0) return rc;
